@@ -13,7 +13,7 @@
 From Coq Require Import List ZArith NArith Bool.
 Import ListNotations.
 From DD Require Import Base.PyStr Base.Value Lfu.LfuModel Diff.DiffModel Hash.HashModel Hash.HashProofsC06 Hash.HashProofsMemo
-  DiffIO.DiffIOModel DiffIO.MemoModel DiffIO.MemoProofs DiffIO.DiffIOProofsExt.
+  DiffIO.DiffIOModel DiffIO.MemoModel DiffIO.MemoProofs DiffIO.DiffIOProofsExt DiffIO.DiffIOCache DiffIO.DiffIOCacheProofs DiffIO.MemoKeys.
 
 (* Full strength (every run) is false of the faithful model: when the same key is computed
    with two values the cached run returns something else.  deepdiff does exactly this: the
@@ -69,6 +69,75 @@ Theorem C17_result_cache_independent_partial :
   run_diff_io H udiff skip excl c rep (fun p => dec (run_pure (pp p))) t1 t2.
 Proof. exact result_cache_independent. Qed.
 Print Assumptions C17_result_cache_independent_partial.
+
+(* ... with ONE cache threaded through the whole traversal, in the implementation's order
+   (DiffIO/DiffIOCache.v: [diff_io_st]; the pairs of a level are "computed by a body or served from
+   the cache" - [pp p] evaluated with the current cache state): any schedule, any right initial
+   cache (in particular the empty one of any capacity) gives the result of the cache-less traversal
+   [diff_io_o] with the pairs the bodies compute, and leaves a right cache behind.
+   ([diff_io_o] lists the children of a dict in the order of t2's keys, as the code does; that it lists
+   the same entries as [diff_io] is checked on every correspondence input, not proved.) *)
+Theorem C17_one_cache_transparent_partial :
+  forall (H : pystr -> pystr) udiff skip excl c rep (V : Type) (spec : key -> V)
+         (sched : nat -> bool) (pp : path -> prog V) (dec : path -> V -> list (nat * nat)),
+  (forall p, consistent spec (pp p)) ->
+  forall t1 t2 p1 p2 (s : mstate V), cache_ok spec (mcache s) ->
+  fst (fst (diff_io_st H udiff skip excl c rep V sched pp dec t1 t2 p1 p2 s)) =
+    diff_io_o H udiff skip excl c rep (fun p => dec p (run_pure (pp p))) t1 t2 p1 p2 /\
+  cache_ok spec (mcache (snd (fst (diff_io_st H udiff skip excl c rep V sched pp dec t1 t2 p1 p2 s)))).
+Proof. exact st_transparent. Qed.
+Print Assumptions C17_one_cache_transparent_partial.
+
+Theorem C17_one_cache_settings_agree_partial :
+  forall (H : pystr -> pystr) udiff skip excl c rep (V : Type) (spec : key -> V)
+         (pp : path -> prog V) (dec : path -> V -> list (nat * nat)),
+  (forall p, consistent spec (pp p)) ->
+  forall cap cap' sched sched' t1 t2,
+  fst (fst (run_diff_io_st H udiff skip excl c rep V sched pp dec t1 t2 (mkM (empty cap) 0))) =
+  fst (fst (run_diff_io_st H udiff skip excl c rep V sched' pp dec t1 t2 (mkM (empty cap') 0))).
+Proof. exact st_settings_agree. Qed.
+Print Assumptions C17_one_cache_settings_agree_partial.
+
+(* Finding K17 is exactly the sorting of the key.  Let [dist added removed] be ANY function of the
+   ordered pair of hashes (the rough distance of DeepDiff(removed, added)).
+   With an oriented key - injective in the ordered pair, i.e. key1, key2 = added, removed without
+   sorting - every program of distance calls is consistent by construction, hence transparent: *)
+Theorem C17_oriented_key_consistent :
+  forall (A V : Type) (okey : A -> A -> key) (inv : key -> option (A * A)),
+  (forall a r, inv (okey a r) = Some (a, r)) ->
+  forall (dist : A -> A -> V) (dflt : V) (p : prog V),
+  dist_calls A V dist okey p ->
+  consistent (spec_of_dist A V inv dist dflt) p /\
+  forall cap sched, fst (fst (run_cached sched p (mkM (empty cap) 0))) = run_pure p.
+Proof.
+  intros A V okey inv Hinv dist dflt p Hp. split.
+  - exact (oriented_key_consistent A V okey inv Hinv dist dflt p Hp).
+  - apply (oriented_key_transparent A V okey inv Hinv dist dflt p Hp).
+Qed.
+Print Assumptions C17_oriented_key_consistent.
+
+(* with the sorted key of diff.py:1153 ([skey]: the larger hash first) the same holds if the distance
+   is symmetric ... *)
+Theorem C17_sorted_key_consistent_if_symmetric :
+  forall (A V : Type) (okey : A -> A -> key) (inv : key -> option (A * A)),
+  (forall a r, inv (okey a r) = Some (a, r)) ->
+  forall (dist : A -> A -> V) (dflt : V) (gt : A -> A -> bool),
+  (forall a r, dist a r = dist r a) ->
+  forall p, dist_calls A V dist (skey A okey gt) p -> consistent (spec_of_dist A V inv dist dflt) p.
+Proof. exact sorted_key_consistent_if_symmetric. Qed.
+Print Assumptions C17_sorted_key_consistent_if_symmetric.
+
+(* ... and ONE asymmetric pair needed in both orientations refutes transparency: the second call is
+   served the first orientation's distance *)
+Theorem C17_sorted_key_refuted :
+  forall (A V : Type) (okey : A -> A -> key) (dist : A -> A -> V) (gt : A -> A -> bool) (a r : A),
+  gt a r = true -> gt r a = false -> dist a r <> dist r a ->
+  dist_calls A V dist (skey A okey gt) (both_orientations A V okey dist gt a r) /\
+  run_pure (both_orientations A V okey dist gt a r) = dist r a /\
+  fst (fst (run_cached (fun _ => true) (both_orientations A V okey dist gt a r) (mkM (empty 2) 0))) = dist a r /\
+  forall spec, ~ consistent spec (both_orientations A V okey dist gt a r).
+Proof. exact sorted_key_refuted. Qed.
+Print Assumptions C17_sorted_key_refuted.
 
 (* cache_size = 0 (DummyLFU: the cache is never enabled) is the cache-less run, for every run *)
 Theorem C17_cache_off_is_pure :
